@@ -136,6 +136,23 @@ def run(shard, rec):
                     rec.count('sorted_checked')
                     if got != sorted(xs, reverse=bool(ci & 8)):
                         rec.violation(f'{what}: seclist.sort gives {got}', {'fn': 'seclist.sort', 'mechanism': 'wrong-result'}, {'case': case}, case=case)
+                    # sorting again after oblivious updates (secret index, unit vector, secret insert position): the order depends on the contents, not on the history
+                    if n >= 2:
+                        ref_l = list(got)
+                        k1, k2 = rng.randrange(n), rng.randrange(n)
+                        v1, v2, v3 = max(xs) + 5, min(xs) - 5, (max(xs) + min(xs)) // 2
+                        sl[secint(k1)] = secint(v1)
+                        ref_l[k1] = v1
+                        sl[[secint(int(j == k2)) for j in range(n)]] = secint(v2)
+                        ref_l[k2] = v2
+                        sl.insert(secint(k1), secint(v3))
+                        ref_l.insert(k1, v3)
+                        sl.sort()
+                        got2 = out(list(sl))
+                        rec.count('sorted_checked')
+                        rec.count('resorts_after_oblivious_updates')
+                        if got2 != sorted(ref_l):
+                            rec.violation(f'{what}: seclist sorted, updated obliviously, sorted again gives {got2}, expected {sorted(ref_l)}', {'fn': 'seclist.sort', 'mechanism': 'wrong-result-after-history'}, {'case': case}, case=case)
             else:
                 fx = [v / 4 for v in xs if abs(v) < 400][:12] or [0.5]
                 check_sorted(fx, what + ' secfxp', case, typ=secfxp)
